@@ -79,6 +79,10 @@ type Edge struct {
 type Gate struct {
 	Name  string
 	Match func(a Atom) (matched bool, passWhenTrue bool)
+	// IsVerdict (optional): v is the error result of the gate's own check. A
+	// function returning that value as its error returns the check's verdict,
+	// which is as good as testing it.
+	IsVerdict func(v ssa.Value) bool
 }
 
 // PassEdges returns the pass edges of g in fn and the number of Ifs matched.
@@ -213,7 +217,7 @@ func allOriginsAreResults(v ssa.Value, m CallMatcher, idx int) bool {
 
 // GErrNil: the check is a call matching m whose error result must be nil.
 func GErrNil(name string, m CallMatcher) Gate {
-	return Gate{Name: name, Match: func(a Atom) (bool, bool) {
+	return Gate{Name: name, IsVerdict: func(v ssa.Value) bool { return IsErrorType(v.Type()) && allOriginsAreResults(v, m, -1) }, Match: func(a Atom) (bool, bool) {
 		if a.Op != token.EQL && a.Op != token.NEQ {
 			return false, false
 		}
@@ -848,15 +852,57 @@ type GateResult struct {
 // g are removed.
 func CheckGate(p *Prog, fn *ssa.Function, g Gate, sinks []ssa.Instruction) GateResult {
 	edges, sites := g.PassEdges(fn)
+	// edges into a return block that carry a provably non-nil error through the
+	// return's phi are error exits, whatever the other incoming edges carry
+	for e := range ErrorExitEdges(fn) {
+		edges[e] = true
+	}
 	r := Reach(fn, ReachOpts{Removed: edges})
 	res := GateResult{Gate: g.Name, Sites: len(sites), Witness: map[ssa.Instruction]string{}, SinkCount: len(sinks)}
 	for _, s := range sinks {
+		if ret, ok := s.(*ssa.Return); ok && g.IsVerdict != nil {
+			if ei := ErrIndex(fn); ei >= 0 && ei < len(ret.Results) && g.IsVerdict(ret.Results[ei]) {
+				res.Sites++ // returning the check's own verdict counts as a test site
+				continue
+			}
+		}
 		if r.Reachable(s) {
 			res.Bypassed = append(res.Bypassed, s)
 			res.Witness[s] = r.Path(p, s)
 		}
 	}
 	return res
+}
+
+// ErrorExitEdges: for returns whose error operand is a phi in the return's own
+// block, the incoming edges whose phi operand is provably non-nil.
+func ErrorExitEdges(fn *ssa.Function) map[Edge]bool {
+	out := map[Edge]bool{}
+	ei := ErrIndex(fn)
+	if ei < 0 {
+		return out
+	}
+	Instrs(fn, func(in ssa.Instruction) {
+		ret, ok := in.(*ssa.Return)
+		if !ok || ei >= len(ret.Results) {
+			return
+		}
+		phi, ok := ret.Results[ei].(*ssa.Phi)
+		if !ok || phi.Block() != ret.Block() {
+			return
+		}
+		for i, e := range phi.Edges {
+			pred := phi.Block().Preds[i]
+			if nonNil(e, pred, 0) {
+				for si, s := range pred.Succs {
+					if s == phi.Block() {
+						out[Edge{pred, si}] = true
+					}
+				}
+			}
+		}
+	})
+	return out
 }
 
 // RequireGate records one obligation per (fn, gate): all sinks are gated.
@@ -993,6 +1039,9 @@ func (c *Ctx) RequireAnyGate(rule string, fn *ssa.Function, gates []Gate, minSit
 	var names []string
 	removed := map[Edge]bool{}
 	for e := range base {
+		removed[e] = true
+	}
+	for e := range ErrorExitEdges(fn) {
 		removed[e] = true
 	}
 	var allSites []*ssa.If
